@@ -29,6 +29,19 @@ def helper_lock_field(ctx):
     return helper, fields[0]
 
 
+def gate_flag(ctx):
+    """name of the helper's flag: the field its __call__ sets to True"""
+    helper, lf = helper_lock_field(ctx)
+    call_fi = helper.methods.get("__call__")
+    if call_fi is None:
+        raise AnalysisError("ShutdownHelper.__call__ not found")
+    ps, it = ctx.paths(call_fi, helper)
+    flags = set(e.d["target"][2] for p in ps for e in p.evs("store") if q.self_field(e.d["target"]) and e.d["value"] == ("const", True))
+    if len(flags) != 1:
+        raise AnalysisError("ShutdownHelper.__call__: expected exactly one flag set to True, found %s" % sorted(flags))
+    return flags.pop()
+
+
 def is_gate_lock(ctx, it, path, lockterm):
     """lockterm is <x>.<lockfield> with x a ShutdownHelper"""
     helper, lf = helper_lock_field(ctx)
